@@ -24,6 +24,12 @@ func (s genericSortable) Swap(i, j int) {
 
 // Less is part of sort.Interface.
 func (s genericSortable) Less(i, j int) bool {
+	// nil is not comparable with anything; order it first (as SortByProperty
+	// does with entries that lack the key) so that the other elements are
+	// still compared with each other
+	if s[i] == nil || s[j] == nil {
+		return s[i] == nil && s[j] != nil
+	}
 	return Less(s[i], s[j])
 }
 
